@@ -801,6 +801,30 @@ def c19(pid, tier, seed, t0):
     decls = vlib.vary_names(decls)
     declfile = save_decls("C19", decls)
     legs = [trace_leg(pid, tier, seed, "dbg+rand", decls, declfile, "debug", q(tier, 2, 10), crate="rt-c19")]
+    # "(others do not compile with `debug`)": write-only / unspecified-access / array fields next to printable ones, and controls
+    import verdicts
+
+    def fld(name, kind, tw, lo, acc, arr=None):
+        return {"name": name, "kind": kind, "tw": tw, "ty": 0, "ranges": [[lo, lo + tw - 1]], "list": False, "array": arr or [], "stride": [], "access": acc}
+    fam = []
+    for n in (8, 32, 24):
+        for odd in (fld("key", "uarb", 3, 4, "w"), fld("key", "bool", 1, 4, "none"), fld("key", "uarb", 2, 4, "rw", [2]), fld("key", "bool", 1, 4, "r", [3]),
+                    fld("key", "uarb", 3, 4, "r"), fld("key", "bool", 1, 7, "rw")):
+            for first in (True, False):
+                fs = [fld("mode", "uarb", 3, 0, "rw"), odd]
+                fam.append({"id": 0, "name": "T", "n": n, "s": rustgen.storage_of(n), "def": [[]] if n == 32 else [], "defform": "lit", "defsyn": "=",
+                            "debug": True, "fields": fs if first else fs[::-1], "enums": [], "nested": []})
+    vfile = verdicts.save("C19v", fam)
+    units = [verdicts.decl_unit(d) for d in fam]
+    verdicts.batch_build("v-c19", units, "dev")
+    vev = [{"ev": "dbgverdict", "decl": d["id"], "accepted": bool(u.compiles), "source": "\n".join(rustgen.decl_source(d)),
+            "diagnostic": (u.diag or {}).get("rendered", "")} for d, u in zip(fam, units)]
+    vstates, known = verdicts.validate_events(pid, "v-c19", vev, vfile, fam,
+                                              lambda ev: "%s:debug:%s:%s" % ("accept" if ev["accepted"] else "reject", fam[ev["decl"]]["fields"][-1]["access"], "array" if any(f["array"] for f in fam[ev["decl"]]["fields"]) else "scalar"))
+    for line in known:
+        print(line)
+    mc.append({"config": "verdict events: `debug` with a write-only / inaccessible / array field must not compile (Decl!DebugApplies), controls compile",
+               "distinct": vstates, "generated": len(vev), "wall_s": 0})
     finish(pid, tier, seed, t0, mc, legs,
            "debug bitfields with 0..8 readable scalar fields of every kind (bool, uN, native, signed, enum, Option<enum> Ok and Err, "
            "nested debug bitfield, r# identifier, non-contiguous) plus seeded layouts: {:?} and {:#?} at pattern and random raws; the "
